@@ -9,7 +9,12 @@ ROOT="$(cd "$(dirname "$0")/.." && pwd)"
 seed="$1"; shift
 wt="/tmp/drill-$$"
 git -C /repo worktree add -q --detach "$wt" HEAD || exit 2
-trap 'git -C /repo worktree remove --force "$wt" >/dev/null 2>&1' EXIT
+suf=$(python3 -c "import hashlib,sys;print(hashlib.sha1(sys.argv[1].encode()).hexdigest())" "$wt")
+cleanup() {
+  git -C /repo worktree remove --force "$wt" >/dev/null 2>&1
+  rm -rf "$ROOT"/work/*-alt"${suf:0:6}" "$ROOT/work/altmod-${suf:0:8}" "$ROOT"/harness/bin/*-alt"${suf:0:6}"
+}
+trap cleanup EXIT
 if ! git -C "$wt" apply "$seed/patch.diff"; then echo "DRILL: patch does not apply"; exit 2; fi
 for p in "$@"; do
   out=$(cd "$ROOT" && VERIF_REPO="$wt" ./check "$p" 2>&1)
